@@ -174,6 +174,19 @@ class CurveMachine(object):
                 L[j] = rec
             else:
                 L.append(rec)
+        elif kind == "retype":
+            # assign an array of another dtype to an existing curve (ints, numeric-looking text, objects)
+            if n == 0:
+                r.count("op-skipped")
+                return
+            _, jj, what, aseed = op
+            j = jj % n
+            base = np.arange(self.rows) + int(aseed)
+            a = {"int": base.astype(np.int64), "numstr": np.array(["%d" % x for x in base]),
+                 "obj": np.array([int(x) if k % 2 else float(x) + 0.5 for k, x in enumerate(base)], dtype=object),
+                 "bool": (base % 2 == 0)}[what]
+            las.curves[j].data = a
+            L[j]["data"] = a.copy()
         elif kind == "set_data":
             _, extra, names, truncate, aseed, rows, via = op
             cols = n + extra
@@ -281,7 +294,7 @@ class CurveMachine(object):
             if las.index is not curves[0].data:
                 self.fail("C14.views", "index is not the first curve's array")
             lens = set(len(np.asarray(c.data)) for c in curves)
-            kinds = set("n" if np.asarray(c.data).dtype.kind in "fiu" else "s" for c in curves)
+            kinds = set("n" if np.asarray(c.data).dtype.kind in "fiu" else np.asarray(c.data).dtype.kind for c in curves)
             if len(kinds) > 1:
                 self.res.count("data-view-skipped-mixed-dtypes")    # numpy coerces a mixed stack to text
             elif len(lens) == 1:
